@@ -1473,6 +1473,77 @@ Proof.
   destruct (IH (pay (fst p) (snd p) s)) as (A & B). rewrite A, B. auto.
 Qed.
 
+(* ---------- account migration: re-keying from -> to ---------- *)
+Lemma kget_krename : forall {A} (m : list (Z * A)) from to j,
+  from <> to -> kget to m = None ->
+  kget j (krename from to m) = if j =? to then kget from m else if j =? from then None else kget j m.
+Proof.
+  intros A m from to j N T. unfold krename. destruct (kget from m) as [x|] eqn:G.
+  - destruct (Z.eqb_spec j to) as [->|Nt]; [apply kget_kset_same|].
+    rewrite kget_kset_other by assumption.
+    destruct (Z.eqb_spec j from) as [->|Nf]; [apply kget_kdel_same|now apply kget_kdel_other].
+  - destruct (Z.eqb_spec j to) as [->|Nt]; [exact T|].
+    destruct (Z.eqb_spec j from) as [->|Nf]; [exact G|reflexivity].
+Qed.
+
+Lemma ksumf_krename : forall {A} (g : A -> Z) (m : list (Z * A)) from to,
+  sorted m -> from <> to -> kget to m = None -> ksumf g (krename from to m) = ksumf g m.
+Proof.
+  intros A g m from to S N T. unfold krename. destruct (kget from m) as [x|] eqn:G; [|reflexivity].
+  rewrite ksumf_kset by (now apply sorted_kdel). rewrite kget_kdel_other by congruence. rewrite T. cbn [gof].
+  rewrite ksumf_kdel by assumption. rewrite G. cbn [gof]. lia.
+Qed.
+
+Lemma sorted_krename : forall {A} (m : list (Z * A)) from to, sorted m -> sorted (krename from to m).
+Proof.
+  intros A m from to S. unfold krename. destruct (kget from m); [|assumption].
+  now apply sorted_kset, sorted_kdel.
+Qed.
+
+Lemma Forall_krename : forall {A} (P : A -> Prop) (m : list (Z * A)) from to,
+  Forall (fun e => P (snd e)) m -> Forall (fun e => P (snd e)) (krename from to m).
+Proof.
+  intros A P m from to F. unfold krename. destruct (kget from m) as [x|] eqn:G; [|assumption].
+  apply Forall_kset; [now apply Forall_kdel|].
+  destruct (kget_Forall _ _ _ _ F G) as [k' H]. exact H.
+Qed.
+
+Lemma migrate_v_inv : forall from to v,
+  from <> to -> khas to (v_dels v) = false -> VInv v -> VInv (migrate_v from to v).
+Proof.
+  intros from to v N KT [[SS RF SP SL] SD SU NN K T PO].
+  assert (TD : kget to (v_dels v) = None) by (now apply khas_false).
+  assert (TS : kget to (v_start v) = None) by (apply khas_false; now rewrite <- K).
+  unfold migrate_v. constructor; psimpl.
+  - constructor; psimpl.
+    + now apply sorted_krename.
+    + intros p. rewrite (href_ext v _ p) by reflexivity. rewrite RF.
+      unfold cnt_start. now rewrite ksumf_krename.
+    + apply (Forall_krename (fun si => si_prev si < v_period v)). exact SP.
+    + exact SL.
+  - now apply sorted_krename.
+  - unfold dsum. now rewrite ksumf_krename.
+  - apply (Forall_krename (fun x => 0 <= x)). exact NN.
+  - intros j. unfold khas. rewrite !kget_krename by assumption.
+    destruct (j =? to); [apply K|]. destruct (j =? from); [reflexivity|apply K].
+  - exact T.
+  - exact PO.
+Qed.
+
+Lemma fold_red_insert_Forall : forall (P : red -> Prop) (f : red -> red) l acc,
+  Forall P acc -> Forall (fun e => P (f e)) l ->
+  Forall P (fold_left (fun a e => red_insert (f e) a) l acc).
+Proof.
+  intros P f l. induction l as [|e r IH]; intros acc FA FL; cbn [fold_left]; [assumption|].
+  inversion FL; subst. apply IH; [|assumption]. now apply red_insert_Forall.
+Qed.
+
+Lemma Forall_filter : forall {A} (P : A -> Prop) f l, Forall P l -> Forall P (filter f l).
+Proof.
+  intros A P f l F. induction F as [|e r He F IH]; cbn [filter]; [constructor|].
+  destruct (f e); [constructor; assumption|assumption].
+Qed.
+
 Lemma exec_inv : forall s o s', SInv s -> exec s o = Ok s' -> SInv s'.
 Proof.
   intros s o s' I H. destruct o; cbn [exec] in *.
@@ -1565,6 +1636,23 @@ Proof.
     + inversion H; subst. now apply set_allow_inv.
   - (* Reverted *)
     discriminate.
+  - (* Migrate *)
+    destruct (migrate_ok from to s) eqn:MO; [|discriminate]. inversion H; subst; clear H.
+    unfold migrate_ok in MO. repeat (apply andb_prop in MO as (MO & ?)).
+    apply negb_true_iff in MO. apply Z.eqb_neq in MO.
+    match goal with X : negb (existsb (fun v => khas to (v_dels v)) (s_vals s)) = true |- _ =>
+      apply negb_true_iff in X; rename X into NE end.
+    destruct I as (IA & IB). split; cbn [s_vals s_reds set_mig set_reds set_ubds set_vals].
+    + apply Forall_map. apply Forall_forall. intros v IN.
+      apply migrate_v_inv; [exact MO| |rewrite Forall_forall in IA; now apply IA].
+      destruct (khas to (v_dels v)) eqn:E; [|reflexivity].
+      assert (X : existsb (fun v => khas to (v_dels v)) (s_vals s) = true) by (apply existsb_exists; eauto).
+      congruence.
+    + unfold reds_rename.
+      apply (fold_red_insert_Forall (fun e => 0 <= r_sh e)
+               (fun e => {| r_del := to; r_src := r_src e; r_dst := r_dst e; r_h := r_h e; r_bal := r_bal e; r_sh := r_sh e |})).
+      * now apply Forall_filter.
+      * apply Forall_filter. exact IB.
 Qed.
 
 Lemma step_inv : forall s o, SInv s -> SInv (fst (step s o)).
@@ -2550,3 +2638,100 @@ Qed.
    approveShares made there grants no allowance *)
 Theorem reverted_no_effect : forall s o, step s (Reverted o) = (s, false).
 Proof. reflexivity. Qed.
+
+(* ====================================================================== *)
+(* 17. account migration keeps shares, stake and the redelegation guard     *)
+(* ====================================================================== *)
+Lemma existsb_red_insert : forall f x l, existsb f (red_insert x l) = f x || existsb f l.
+Proof.
+  intros f x l. induction l as [|e r IH]; cbn [red_insert existsb]; [reflexivity|].
+  destruct (red_le e x); cbn [existsb]; [rewrite IH|reflexivity].
+  destruct (f e), (f x); reflexivity.
+Qed.
+
+Lemma existsb_fold_insert : forall f (g : red -> red) l acc,
+  existsb f (fold_left (fun a e => red_insert (g e) a) l acc) = existsb (fun e => f (g e)) l || existsb f acc.
+Proof.
+  intros f g l. induction l as [|e r IH]; intros acc; cbn [fold_left existsb]; [reflexivity|].
+  rewrite IH, existsb_red_insert. destruct (f (g e)), (existsb (fun e0 => f (g e0)) r), (existsb f acc); reflexivity.
+Qed.
+
+Lemma existsb_filter_split : forall {A} (f p : A -> bool) l,
+  existsb f l = existsb f (filter p l) || existsb f (filter (fun e => negb (p e)) l).
+Proof.
+  intros A f p l. induction l as [|e r IH]; cbn [existsb filter]; [reflexivity|].
+  destruct (p e); cbn [negb existsb]; rewrite IH;
+    destruct (f e), (existsb f (filter p r)), (existsb f (filter (fun e0 => negb (p e0)) r)); reflexivity.
+Qed.
+
+Lemma existsb_ext_in : forall {A} (f g : A -> bool) l, (forall e, In e l -> f e = g e) -> existsb f l = existsb g l.
+Proof.
+  intros A f g l H. induction l as [|e r IH]; cbn [existsb]; [reflexivity|].
+  rewrite (H e) by (left; reflexivity). rewrite IH; [reflexivity|]. intros x IN. apply H. right. exact IN.
+Qed.
+
+(* the guard follows the account: after the migration the new address has an incoming redelegation on a
+   validator exactly if the old one had *)
+Lemma migrate_guard : forall from to dst l,
+  from <> to -> existsb (fun e => r_del e =? to) l = false ->
+  existsb (fun e => (r_del e =? to) && (r_dst e =? dst)) (reds_rename from to l) =
+  existsb (fun e => (r_del e =? from) && (r_dst e =? dst)) l.
+Proof.
+  intros from to dst l N NT. unfold reds_rename. rewrite existsb_fold_insert. cbn [r_del r_dst].
+  rewrite Z.eqb_refl.
+  rewrite (existsb_filter_split (fun e => (r_del e =? from) && (r_dst e =? dst)) (fun e => r_del e =? from) l).
+  assert (A : existsb (fun e => (r_del e =? to) && (r_dst e =? dst)) (filter (fun e => negb (r_del e =? from)) l) = false).
+  { clear N. induction l as [|e r IH]; cbn [filter existsb] in *; [reflexivity|].
+    apply orb_false_iff in NT as (NE & NR). destruct (negb (r_del e =? from)); cbn [existsb]; rewrite ?NE; cbn [andb orb]; auto. }
+  assert (B : existsb (fun e => (r_del e =? from) && (r_dst e =? dst)) (filter (fun e => negb (r_del e =? from)) l) = false).
+  { clear. induction l as [|e r IH]; cbn [filter existsb]; [reflexivity|].
+    destruct (r_del e =? from) eqn:E; cbn [negb]; [exact IH|]. cbn [existsb]. rewrite E. cbn [andb orb]. exact IH. }
+  rewrite A, B, !orb_false_r.
+  apply existsb_ext_in. intros e IN. apply filter_In in IN as (_ & E). rewrite E. reflexivity.
+Qed.
+
+Lemma vnth_map : forall f l i x, vnth i l = Some x -> vnth i (map f l) = Some (f x).
+Proof.
+  intros f l. induction l as [|y r IH]; intros i x G; [destruct i; discriminate|].
+  destruct i; cbn [vnth map] in *; [inversion G; subst; reflexivity|eauto].
+Qed.
+
+Lemma vnth_In : forall l i x, vnth i l = Some x -> In x l.
+Proof.
+  induction l as [|y r IH]; intros i x G; [destruct i; discriminate|].
+  destruct i; cbn [vnth] in G; [inversion G; left; reflexivity|right; eauto].
+Qed.
+
+Theorem migrate_conserves : forall s s' from to,
+  SInv s -> exec s (Migrate from to) = Ok s' ->
+  SInv s' /\ from <> to /\
+  (forall dst, has_receiving to dst s' = has_receiving from dst s) /\
+  (forall v vs, get_val v s = Some vs ->
+     exists vs', get_val v s' = Some vs' /\
+       v_tokens vs' = v_tokens vs /\ v_shares vs' = v_shares vs /\
+       dget to vs' = dget from vs /\ dget from vs' = 0 /\
+       (forall c, c <> from -> c <> to -> kget c (v_dels vs') = kget c (v_dels vs))).
+Proof.
+  intros s s' from to I H. split; [eapply exec_inv; eauto|].
+  cbn [exec] in H. destruct (migrate_ok from to s) eqn:MO; [|discriminate]. inversion H; subst; clear H.
+  unfold migrate_ok in MO. repeat (apply andb_prop in MO as (MO & ?)).
+  apply negb_true_iff in MO. apply Z.eqb_neq in MO.
+  repeat match goal with X : negb _ = true |- _ => apply negb_true_iff in X end.
+  split; [exact MO|]. split.
+  - intros dst. unfold has_receiving. cbn [s_reds set_mig set_reds]. now apply migrate_guard.
+  - intros v vs G. unfold get_val in *. cbn [s_vals set_mig set_reds set_ubds set_vals].
+    destruct (v <? 0); [discriminate|].
+    assert (NV : khas to (v_dels vs) = false).
+    { destruct (khas to (v_dels vs)) eqn:E; [|reflexivity].
+      assert (X : existsb (fun v => khas to (v_dels v)) (s_vals s) = true).
+      { apply existsb_exists. exists vs. split; [eapply vnth_In; eauto|exact E]. }
+      congruence. }
+    exists (migrate_v from to vs). split.
+    + now apply vnth_map.
+    + unfold migrate_v, dget. psimpl. split; [reflexivity|]. split; [reflexivity|].
+      rewrite !kget_krename by (assumption || now apply khas_false).
+      rewrite Z.eqb_refl. destruct (Z.eqb_spec from to); [contradiction|]. rewrite Z.eqb_refl.
+      split; [reflexivity|]. split; [reflexivity|].
+      intros c N1 N2. rewrite kget_krename by (assumption || now apply khas_false).
+      destruct (Z.eqb_spec c to); [contradiction|]. destruct (Z.eqb_spec c from); [contradiction|]. reflexivity.
+Qed.
